@@ -434,6 +434,13 @@ struct Runner {
 				loadBits(dst, bits);
 				o << "end\n";
 				snap(dst);
+				// saving the loaded instance again must give the same image
+				if (active(inst(dst))) {
+					o << "op " << dst << " save\n";
+					const std::string again = saveBits(dst);
+					o << "ret " << again << "\n" << "end\n";
+					snap(dst);
+				}
 				continue;
 			}
 #endif
